@@ -34,7 +34,8 @@ MarshalDemands(e) ==
     <<"C13.htmlonly",   e.f2 = FmtSize(n, FormatHTML)>>,
     <<"X.marshaltext",  e.mt = MarshalTextRef(n, zSw)>>,
     <<"X.marshaljson",  e.mj = MarshalJSONRef(n, zSw)>>,
-    <<"X.bytesstring",  e.bs = DigStr(n)>>
+    <<"X.bytesstring",  e.bs = DigStr(n)>>,
+    <<"X.bytesjson",    e.bjn = DigStr(n)>>
   >>
 
 ZParseDemands(e, r) ==
